@@ -291,7 +291,7 @@ C10_ENV = {'ASAN_OPTIONS': 'abort_on_error=1:detect_leaks=1:allocator_may_return
 CHECKS['C10'] = [dict(harness='h_api', variant='asan', args=[], quick=2000, thorough=150000, props=['C10'], name='api', env=C10_ENV),
                  dict(harness='h_file', variant='asan', args=['--mode', 'c01'], quick=60, thorough=2000, props=['C10'], name='asan-c01', env=C10_ENV),
                  dict(harness='h_file', variant='asan', args=['--mode', 'c09'], quick=60, thorough=2000, props=['C10'], name='asan-c09', env=C10_ENV),
-                 dict(harness='h_file', variant='asan', args=['--mode', 'c02'], quick=60, thorough=1500, props=['C10'], name='asan-c02', env=C10_ENV),
+                 dict(harness='h_file', variant='asan', args=['--mode', 'c02', '--cpu', '900', '--wall', '2400'], quick=60, thorough=1500, props=['C10'], name='asan-c02', env=C10_ENV),   # the O(samples) oracle under ASan: a thorough case needed more than the 120 CPU-seconds of the plain build
                  dict(harness='h_file', variant='asan', args=['--mode', 'c11'], quick=40, thorough=1000, props=['C10'], name='asan-c11', env=C10_ENV),
                  dict(harness='h_file', variant='asan', args=['--mode', 'c12'], quick=40, thorough=1000, props=['C10'], name='asan-c12', env=C10_ENV),
                  dict(harness='h_file', variant='asan', args=['--mode', 'c13'], quick=40, thorough=1000, props=['C10'], name='asan-c13', env=C10_ENV),
